@@ -39,7 +39,7 @@ pub(crate) struct SyncTrackerRes {
     /// Pushed references (component and handle) that came from network and were applied in world,
     /// so that in the next detect step they will be skipped and avoid ensless loop.
     pub(crate) pushed_component_from_network: HashSet<ComponentChangeId>,
-    pub(crate) pushed_handles_from_network: HashSet<AssId>,
+    pub(crate) pushed_handles_from_network: HashMap<AssId, usize>,
     /// Parent links (child uuid -> parent uuid) applied from the network and not yet seen by the
     /// parent tracking systems, so that they are not announced again.
     pub(crate) pushed_parent_from_network: HashMap<Uuid, Uuid>,
@@ -84,15 +84,23 @@ impl SyncTrackerRes {
     }
 
     pub(crate) fn skip_network_handle_change(&mut self, id: AssId) -> bool {
-        if self.pushed_handles_from_network.contains(&id) {
+        if let Some(pending) = self.pushed_handles_from_network.get_mut(&id) {
             debug!(
                 "Debouncing network handle change, was already pushed. {:?}",
                 id
             );
-            self.pushed_handles_from_network.remove(&id);
+            *pending -= 1;
+            if *pending == 0 {
+                self.pushed_handles_from_network.remove(&id);
+            }
             return true;
         }
         false
+    }
+
+    /// Every asset applied from the network produces one asset event: one debounce per event.
+    pub(crate) fn push_network_handle_change(&mut self, id: AssId) {
+        *self.pushed_handles_from_network.entry(id).or_insert(0) += 1;
     }
 
     pub(crate) fn apply_component_change_from_network(
@@ -185,8 +193,7 @@ impl SyncTrackerRes {
         };
         world
             .resource_mut::<SyncTrackerRes>()
-            .pushed_handles_from_network
-            .insert(id);
+            .push_network_handle_change(id);
         let mut materials = world.resource_mut::<Assets<StandardMaterial>>();
         materials.insert(id, *mat);
     }
